@@ -2,8 +2,8 @@
 
 TRUSTED_COMMON = [
     'Verus 0.2026.09.13 with its bundled Z3 4.16.0 and vstd (specifications of Vec, slices, iterators, HashMap, Option)',
-    'tools/vx extraction: the rewrite rules T1..T13 of DESIGN.md section 2.2 / 8.2 are meaning-preserving (monomorphization at VecKind as rustc does it; trait impls as inherent impls; operator sugar through dispatch traits; panics as obligations)',
-    'std semantics assumed by rewrites: enumerate() counts from 0 (T8); map().collect() visits elements once in order (T9); into_iter().collect() likewise (T13); `a += &x` is `a += x` (T12); #[derive(Clone)] clones field-wise',
+    'tools/vx extraction: the rewrite rules T1..T14 of DESIGN.md section 2.2 / 8.2 are meaning-preserving (monomorphization at VecKind as rustc does it; trait impls as inherent impls; operator sugar through dispatch traits; panics as obligations)',
+    'std semantics assumed by rewrites: enumerate() counts from 0 (T8); map().collect() visits elements once in order (T9); into_iter().collect() likewise (T13); calling a boxed closure held in a struct field is a call of the opaque stand-in declared for that field, about which nothing is assumed beyond an uninterpreted postcondition (T14); `a += &x` is `a += x` (T12); #[derive(Clone)] clones field-wise',
     'machine arithmetic: sizes and sums fit usize where a contract says so (explicit preconditions); allocation failure is out of scope',
 ]
 
@@ -34,7 +34,7 @@ PROPS = {
     'C11': _p('exploration'),
     'C12': _p('proof', explanation='define_map_arrow / spider_map_arrow proved, for every functor meeting the trait contract, to return the substitution instance (nodes replaced by their blocks, hyperedges by the image of the operations, glued along the expanded source and target lists by a coequalizer, interfaces expanded), well-formed and of type F(A) -> F(B); the instance is unique up to isomorphism; the Identity functor is proved to meet the contract and its image to be isomorphic to the argument; functoriality clauses and the lax DynFunctor wrapper are bounded', extra_modules=['subst', 'laws', 'laws2']),
     'C13': _p('exploration'),
-    'C14': _p('exploration'),
+    'C14': _p('exploration', explanation='typing clauses proved (Optic::map_object, map_operations, map_arrow, adapt: well-formed, panic-free, of the stated types for every lens-typed forward/reverse functor and residual); functoriality, monogamy and the derivative clause bounded'),
     'C15': _p('proof', explanation='kahn proved against its layering contract (loop invariant over a counting model); converse / flatmap / operation_adjacency proved to compute the dependency relation; layer() proved to satisfy the local form of the property, from which the path form follows by verified lemmas; grouping (layered_operations) bounded'),
     'C16': _p('proof', explanation='eval, eval_order and layer_function_to_layers proved: None iff a dependency cycle exists; otherwise the memory solves the circuit equations (inputs stored, every hyperedge interpreted once on its source values) for every interpretation the user closure computes; the solution is unique (lemma_solution_unique)'),
     'C17': _p('proof', explanation='is_monogamous and degrees proved; is_acyclic proved: true iff no node reaches itself (kahn + node adjacency under contract, cycle lemmas)', dev_profile=True),
@@ -96,4 +96,6 @@ EXTRA_PROPS = {
     'hypergraph_arrow::HypergraphArrow::validate': ['C20'],
     'optic::interleave_blocks': ['C20'],
     'optic::partial_dagger': ['C20'],
+    'optic::Optic::optic_map_operations': ['C20'],
+    'optic::Optic::optic_map_arrow': ['C20'],
 }
